@@ -271,6 +271,18 @@ PublishedDisabledViol(ev) ==
             ELSE {}
     ELSE {}
 
+\* C05 / C03 on the logged views: after a successful update the master key holds no right naming an
+\* identifier that no attribute of its structure carries (rights of deleted attributes are gone)
+StaleRightsViol(ev) ==
+    IF ev.op = "update" /\ ev.res = "ok" /\ Has(ev, "msk")
+    THEN LET live == {a.id : a \in ViewAttrs(ev.msk)}
+             stale == {i \in 1..Len(ev.msk.rights) : \E j \in 1..Len(ev.msk.rights[i].r) : ev.msk.rights[i].r[j] \notin live}
+         IN IF stale # {}
+            THEN {Vio({"C05", "C03"}, "after an update the master key still holds rights of deleted attributes", "none",
+                      <<{ev.msk.rights[i].r : i \in stale}>>)}
+            ELSE {}
+    ELSE {}
+
 FlavourViol(g2, ev) ==
     LET m == ViewMsk(ev)
     IN (IF Has(ev, "msk") /\ ev.res = "ok" /\ ev.op = "update"
@@ -435,7 +447,7 @@ Call(ev) ==
         g2 == IF follow THEN Apply(ev) ELSE g
         g3 == g2
         m == ViewMsk(ev)
-        newviol == ContractViol(ev, v) \cup RoundTripViol(ev) \cup FreshViol(ev) \cup DriftViol(ev) \cup HeaderViol(ev) \cup PublishedDisabledViol(ev)
+        newviol == ContractViol(ev, v) \cup RoundTripViol(ev) \cup FreshViol(ev) \cup DriftViol(ev) \cup HeaderViol(ev) \cup PublishedDisabledViol(ev) \cup StaleRightsViol(ev)
                    \cup (IF lostSync THEN {} ELSE
                            OpensViol(g3, ev) \cup RecapsViol(g3, ev) \cup FlavourViol(g3, ev)
                            \cup HeldViol(ev) \cup IdViol(ev))
@@ -456,7 +468,7 @@ Skip(ev) ==
     \* monitors that only need the logged views keep running when the abstract state lost track
     /\ disUpd' = IF ev.res = "skip" THEN disUpd ELSE DisUpdAfter(ev)
     /\ viol' = viol \cup (IF ev.res = "skip" THEN {} ELSE
-                            {x \in PublishedDisabledViol(ev) \cup RoundTripViol(ev) \cup FreshViol(ev) :
+                            {x \in PublishedDisabledViol(ev) \cup StaleRightsViol(ev) \cup RoundTripViol(ev) \cup FreshViol(ev) :
                                 ~\E y \in viol : y.hist = x.hist /\ y.what = x.what /\ y.detail = x.detail})
     /\ stats' = Bump(stats, "events", 1)
 
